@@ -40,7 +40,6 @@ def tables() -> dict[str, dict[str, str]]:
     return {
         "enumTable": _table("datamodel_code_generator.parser.base"),
         "typedDictKeyTable": _table("datamodel_code_generator.model.typed_dict"),
-        "patternTable": _table("datamodel_code_generator.model.pydantic.types"),
     }
 
 
@@ -48,7 +47,7 @@ def sites() -> dict[str, list[tuple[str, str, str]]]:
     enum_sites = []
     for f in ("parser/jsonschema.py", "parser/graphql.py"):
         enum_sites += _fstring_contexts(SRC / f, "translate(escape_characters)")
-    pattern_sites = _fstring_contexts(SRC / "model/pydantic/types.py", "escaped_regex")
+    pattern_sites = _fstring_contexts(SRC / "model/pydantic/types.py", "pattern")
     return {"enumSites": enum_sites, "patternSites": pattern_sites}
 
 
